@@ -281,7 +281,7 @@ func c16Run(tag string, maxLen, A int, multi bool) {
 		return // bound: at most A attribute headers in the block
 	}
 	rec := &c16rec{}
-	err := c16Decoder().Decode(rec, b)
+	err := c16DecoderWithHistory(b).Decode(rec, b)
 	if e.aborted {
 		verifAssert("framing-fault-means-no-callback", len(rec.calls) == 0)
 		verifAssert("framing-fault-returns-error", err != nil)
@@ -328,4 +328,55 @@ func Verif_C16_partition_small() {
 		verifWant("small-" + w)
 	}
 	c16Run("small-", n, 4, true)
+}
+
+// ---- a decoder object that has already decoded another UPDATE (C16 / C17: Decode is a function of the body alone) ----
+
+// c16Hist selects what the decoder under test did before: 0 = nothing (fresh decoder).
+var c16Hist int
+
+var c16HistBodies = [][]byte{
+	nil,
+	// 1: walked to the end: ORIGIN, AS_PATH, NEXT_HOP, one NLRI prefix
+	{0, 0, 0, 14, 0x40, 1, 1, 0, 0x40, 2, 0, 0x40, 3, 4, 192, 0, 2, 1, 24, 10, 0, 0},
+	// 2: ORIGIN, AS_PATH, then MP_REACH_NLRI twice: aborted in the attribute walk
+	{0, 0, 0, 13, 0x40, 1, 1, 0, 0x40, 2, 0, 0x80, 14, 0, 0x80, 14, 0},
+	// 3: ORIGIN, AS_PATH, MP_UNREACH_NLRI, NEXT_HOP whose callback returns a *Notification: aborted in the attribute walk
+	{0, 0, 0, 17, 0x40, 1, 1, 0, 0x40, 2, 0, 0x80, 15, 0, 0x40, 3, 4, 192, 0, 2, 1},
+	// 4: ORIGIN, then a truncated attribute header: iteration ends early (treat-as-withdraw)
+	{0, 0, 0, 6, 0x40, 1, 1, 0, 0x40, 2},
+}
+
+func c16DecoderWithHistory(body []byte) *UpdateDecoder[*c16rec] {
+	d := c16Decoder()
+	if c16Hist == 0 {
+		return d
+	}
+	hb := c16HistBodies[c16Hist]
+	c16body = hb
+	hrec := &c16rec{}
+	if c16Hist == 3 {
+		hrec.verdict = func(kind, idx int) error {
+			if kind == 1 && idx == 3 {
+				return &Notification{Code: NOTIF_CODE_UPDATE_MESSAGE_ERR, Subcode: NOTIF_SUBCODE_MALFORMED_ATTR_LIST}
+			}
+			return nil
+		}
+	}
+	herr := d.Decode(hrec, hb)
+	verifAssert("history-decode-as-scripted", (herr == nil) == (c16Hist == 1))
+	c16body = body
+	return d
+}
+
+// the same decoder object decodes a second UPDATE: its partition does not depend on the first one
+func Verif_C16_decoder_reuse() {
+	n := 10
+	if verifTier() >= 1 {
+		n = 12
+	}
+	verifNote("a decoder object that has already decoded one UPDATE (4 histories: walked to the end; aborted by a repeated MP_REACH_NLRI after ORIGIN/AS_PATH; aborted by a callback's *Notification after ORIGIN/AS_PATH/MP_UNREACH_NLRI; ended early by a truncated attribute header) decodes every body of length <= 10 (quick) / 12 (thorough): same partition as a fresh decoder")
+	c16Hist = 1 + verifChoose("history", 4)
+	verifWant("reuse-partitioned")
+	c16Run("reuse-", n, 3, true)
 }
